@@ -1,85 +1,53 @@
-"""C03 hunt: inputs on which the UNMODIFIED library disagrees with packaging's Marker.evaluate.
+"""Hunt round 3 for C03 (marker evaluation agrees with packaging) on the UNMODIFIED tree.
 
-Run: cd /tmp/wt/C03g && PYTHONPATH=/tmp/wt/C03g/src /venv/bin/python hunt_C03.py
+No truth-value disagreement was found for marker texts over the well-defined atom
+classes with ordinary string / set / frozenset environments (see the report for the
+areas and case counts).  The only deviations found sit on the fringe of the quantifier
+(unusual-but-legal environment value types, degenerate atoms); they are printed below
+with the library's answer and packaging's answer side by side.
 
-Only findings outside the nine known families are listed. Each line shows the marker, the
-environment / context, what dep_logic returns and what packaging (the oracle) returns.
+Run: cd /tmp/wt/C03i && PYTHONPATH=/tmp/wt/C03i/src /venv/bin/python hunt_C03.py
 """
-from packaging.markers import Marker
+from packaging.markers import Marker, default_environment
 
 from dep_logic.markers import parse_marker
 
-BASE = {"python_version": "3.9", "python_full_version": "3.9.1"}
 
-
-def run(text, env, context="metadata"):
-    def call(f):
+def both(text, env, context="metadata"):
+    full = dict(default_environment())
+    full.update(env)
+    out = []
+    for impl in (parse_marker(text), Marker(text)):
         try:
-            return repr(f())
-        except BaseException as e:  # noqa: BLE001
-            return f"raises {type(e).__name__}: {str(e)[:70]}"
-
-    lib = call(lambda: parse_marker(text).evaluate(dict(env), context))
-    ref = call(lambda: Marker(text).evaluate(dict(env), context))
-    flag = "VIOLATION" if lib != ref else "agree    "
-    print(f"  {flag} {text!r} env={env} ctx={context}\n      dep_logic: {lib}\n      packaging: {ref}")
-    return lib != ref
+            out.append(repr(impl.evaluate(dict(full), context=context)))
+        except Exception as exc:  # noqa: BLE001
+            out.append(f"raises {type(exc).__name__}: {exc}")
+    return out
 
 
-n = 0
-print("N1. `extra` with any operator other than == / != hits `assert self.op in ('==', '!=')`")
-print("    (AssertionError instead of a truth value; under `python -O` the assert vanishes and")
-print("    every such atom is evaluated as `!=`).")
-for t, e in [
-    ('extra in "foo,bar"', {"extra": "foo"}),
-    ('extra not in "foo,bar"', {"extra": "foo"}),
-    ('"test" in extra', {"extra": "tests"}),
-    ('"test" not in extra', {"extra": "docs"}),
-    ('os_name == "posix" and extra in "foo bar"', {"extra": "bar", "os_name": "posix"}),
-]:
-    n += run(t, {**BASE, **e})
+def show(title, text, env, context):
+    lib, pkg = both(text, env, context)
+    flag = "DIFFERS" if lib != pkg else "agrees"
+    print(f"[{flag}] {title}\n    marker   : {text}\n    env      : {env!r} (context={context})\n"
+          f"    dep_logic: {lib}\n    packaging: {pkg}\n")
 
-print("N2. set-valued extras / dependency_groups given as anything but a builtin `set`")
-print("    (packaging documents AbstractSet and itself uses frozenset() as the lock_file default):")
-print("    `isinstance(rhs, set)` is False, so normalize_name() is applied to the container -> TypeError.")
-for t, e in [
-    ('"foo" in extras', {"extras": frozenset({"Foo"})}),
-    ('"foo" not in dependency_groups', {"dependency_groups": frozenset({"bar"})}),
-    ('"foo" in extras or os_name == "nt"', {"extras": {"foo": 1}.keys(), "os_name": "nt"}),
-]:
-    n += run(t, {**BASE, **e}, "lock_file")
 
-print("N3. ordering operator with a literal on the left of a set-valued variable: TypeError")
-print("    (str < set) where packaging answers False (relative of known family 7, but a crash).")
-for t in ['"foo" < extras', '"foo" >= dependency_groups']:
-    n += run(t, {**BASE, "extras": {"foo"}, "dependency_groups": {"foo"}}, "lock_file")
+print("== F1 (new, minor): set-valued extras / dependency_groups given as a collections.abc.Set "
+      "that is not set/frozenset (packaging's Environment type is AbstractSet[str]) ==")
+show("dict keys view as extras", '"a" in extras', {"extras": {"a": 1, "b": 2}.keys()}, "lock_file")
+show("dict keys view as dependency_groups", '"dev" not in dependency_groups',
+     {"dependency_groups": {"test": None}.keys()}, "lock_file")
+show("control: frozenset", '"a" in extras', {"extras": frozenset({"A"})}, "lock_file")
 
-print("N4. ordering operator on a VERSION variable whose literal is not a PEP 440 version:")
-print("    Specifier() is invalid, the fallback compares strings lexicographically, packaging's")
-print("    fallback table answers `==` for <=/>= and False for </> (same table as family 7, but the")
-print("    variable is python_version / platform_release, not a plain string variable).")
-for t, e in [
-    ('platform_release >= "5.10.0-generic"', {"platform_release": "5.10.1"}),
-    ('platform_release > "3.9_0"', {"platform_release": "4.0.0"}),
-    ('python_version >= "3.8.*"', {}),
-    ('python_full_version < "3.x"', {}),
-]:
-    n += run(t, {**BASE, **e})
+print("== F2 (fringe: degenerate ==/!= atoms on extras/dependency_groups with a STRING value; "
+      "PEP 685 normalisation is lost once two such atoms merge into an Equality/Inequality union) ==")
+show("single atom normalises", '"a" == dependency_groups', {"dependency_groups": "A"}, "lock_file")
+show("two atoms merged into EqualityMarkerUnion do not",
+     '"a" == dependency_groups or "b" == dependency_groups', {"dependency_groups": "A"}, "lock_file")
+show("two atoms merged into InequalityMultiMarker do not",
+     '"a" != extras and "b" != extras', {"extras": "A"}, "lock_file")
 
-print("N5. python_version / python_full_version atoms are merged as if the two variables were")
-print("    consistent; an environment that overrides only one of them (the other then comes from")
-print("    the running interpreter) or sets them inconsistently is evaluated differently.")
-for t, e in [
-    ('python_version >= "3.8" or python_full_version >= "3.8.0"', {"python_version": "2.7"}),
-    ('python_version >= "3.8" and python_full_version >= "3.8.0"', {"python_version": "3.9", "python_full_version": "3.7.0"}),
-]:
-    n += run(t, e)
-
-print("N6. wrong exception type / wrong moment (both sides fail, listed for completeness):")
-for t, e, c in [
-    ('extras == "foo"', {"extras": {"foo"}}, "lock_file"),  # AssertionError vs UndefinedComparison
-    ('os_name ~= "a" and os_name == "b"', {}, "metadata"),  # dep_logic InvalidSpecifier at PARSE time
-]:
-    run(t, {**BASE, **e}, c)
-
-print(f"\n{n} violating evaluations shown (N1-N5)")
+print("== F3 (fringe: environment lacks a key; and/or short-circuit hides packaging's "
+      "UndefinedEnvironmentName) ==")
+show("extras atom in metadata context", 'python_version == "2.0" and "x" in extras', {}, "metadata")
+show("extra atom in requirement context", 'os_name == "no-such-os" and extra == "x"', {}, "requirement")
